@@ -55,6 +55,26 @@ func (g *Gen) candidates(conflictOdds int) []wire.OutPoint {
 	return cands
 }
 
+// foreignUnminedInputs: outpoints of unknown transactions that an unmined
+// known transaction spends and no mined one does.
+func (g *Gen) foreignUnminedInputs() []wire.OutPoint {
+	var r []wire.OutPoint
+	for _, t := range g.M.Known {
+		if t.Coinbase || t.Height != -1 {
+			continue
+		}
+		for _, in := range t.Msg.TxIn {
+			op := in.PreviousOutPoint
+			if _, kn := g.M.Known[op.Hash]; kn || g.M.SpentByMined(op) {
+				continue
+			}
+			r = append(r, op)
+		}
+	}
+	sort.Slice(r, func(i, j int) bool { return r[i].String() < r[j].String() })
+	return r
+}
+
 // NewTx creates a fresh transaction. conflictOdds: 1-in-n chance per already
 // unmined-spent output of being eligible again (0 = never conflict).
 func (g *Gen) NewTx(coinbase bool, conflictOdds int) *Tx {
@@ -96,6 +116,18 @@ func (g *Gen) NewTx(coinbase bool, conflictOdds int) *Tx {
 				tx.AddTxIn(wire.NewTxIn(&op, nil, nil))
 			} else {
 				op := wire.OutPoint{Hash: chainhash.Hash{0xee, byte(g.N), byte(g.N >> 8), byte(i), g.Salt}, Index: uint32(g.R.Intn(3))}
+				// sometimes conflict with an unconfirmed known transaction on an
+				// outpoint of a transaction the wallet has never seen (e.g. a
+				// sender's fee bump of an incoming payment)
+				if conflictOdds > 0 && g.R.Intn(3) == 0 {
+					if f := g.foreignUnminedInputs(); len(f) > 0 {
+						op = f[g.R.Intn(len(f))]
+					}
+				}
+				if used[op] {
+					continue
+				}
+				used[op] = true
 				tx.AddTxIn(wire.NewTxIn(&op, nil, nil))
 			}
 		}
